@@ -216,8 +216,10 @@ def run_jobs(jobs, trace_out=None, timeout=900, tag="jobs", may_abort=False):
         results[crashed] = [{"abort": True, "rc": rc}]
         start = crashed + 1
         part += 1
-        if part > (2000 if may_abort else 300):
-            raise ToolError("the runner died more than %d times in one batch" % part)
+        if part > (2000 if may_abort else 40):
+            # the engine killed the process that many times: that is data about the code under test, not a tool error
+            crashed_jobs = [jobs[k] for k in range(len(jobs)) if results[k] and results[k][0].get("abort")][:5]
+            raise CrashStorm(part, crashed_jobs)
     for k, r in enumerate(results):
         if r is None:
             results[k] = [{"abort": True, "rc": "lost"}]
@@ -299,6 +301,8 @@ class Check:
         self.distinct = set()
         self.notes = []
         self.drift = []          # trace steps that are no TeraVM step (binding drift, not a verdict)
+        global CURRENT
+        CURRENT = self
 
     def add_tlc(self, r, label=None):
         self.cov["states"] += r.distinct
@@ -396,10 +400,27 @@ def flat(x):
     return "".join(flat(y) for y in x)
 
 
+class CrashStorm(Exception):
+    def __init__(self, n, jobs):
+        Exception.__init__(self, "the engine killed the runner process %d times in one batch" % n)
+        self.n, self.jobs = n, jobs
+
+
+CURRENT = None
+
+
 def main_wrapper(fn):
     """Run a check; map tool errors to exit 2 so they are never mistaken for violations."""
     try:
         rc = fn()
+    except CrashStorm as e:
+        if CURRENT is None:
+            print("TOOL-ERROR: %s" % e)
+            sys.exit(2)
+        CURRENT.violation({"kind": "abort-storm"}, "%s (stack overflow, abort or hang inside the engine); the check stopped there; first jobs that died are in the replay file" % e,
+                          {"jobs": e.jobs})
+        CURRENT.cov.setdefault("notes", []).append("stopped early: " + str(e))
+        rc = CURRENT.finish()
     except ToolError as e:
         print("TOOL-ERROR: %s" % e)
         sys.exit(2)
